@@ -16,7 +16,7 @@ from vf import bpsynth as bp
 
 SHARDS = {'quick': 16, 'thorough': 64}
 TIMEOUT = {'quick': 1500, 'thorough': 7200}
-MUST_HIT = ['Mapping.whole-model', 'Mapping.component', 'Mapping.derived-attributes', 'Mapping.after-edit',
+MUST_HIT = ['EarlierObject.rechecked', 'Mapping.whole-model', 'Mapping.component', 'Mapping.derived-attributes', 'Mapping.after-edit',
             'Mapping.simple', 'Mapping.linked', 'Mapping.subsuper', 'Mapping.reflexive', 'Schema.roundtrip',
             'Mapping.real-model-edit', 'Mapping.unsupported-attribute-type', 'Mapping.identifier-of-derived-attribute']
 MUST_REACH = ['bridgepoint/ooaofooa.py:mk_class', 'bridgepoint/ooaofooa.py:mk_simple_association',
@@ -296,6 +296,7 @@ def one_diagram(ctx, rng, tmpdir):
     text = bp.build(d).rows.text(rng)
     ctx.hit('Mapping.whole-model')
     c, exp = compare(ctx, d, text, None, False, 'whole model')
+    ctx.later('component', (lambda c=c: bp.observed_component(c)), 'component extracted from the model')
     ctx.hit('Mapping.derived-attributes')
     compare(ctx, d, text, None, True, 'whole model with derived attributes')
     ctx.hit('Mapping.component')
